@@ -87,6 +87,12 @@ type worldCase struct {
 		Affinity    bool   `json:"affinity"`
 		DefaultMode string `json:"default_mode"`
 	} `json:"options"`
+	// Global: one fault at the K-th write issued by the reconciles of the whole case:
+	// kind reject | lost | stop_before | stop_after
+	Global *struct {
+		K    int    `json:"k"`
+		Kind string `json:"kind"`
+	} `json:"global_fault"`
 }
 
 type callLog struct {
@@ -161,6 +167,10 @@ type world struct {
 	calls   []callLog
 	faults  *faultSpec
 	writes  int
+	total   int    // writes issued by reconciles since the start of the case (for the global fault)
+	globalHit string // kind of the global fault that fires on the current call
+	globalNow string
+	inReconcile bool
 	counter int
 	opts    worldCase
 	eds     *edsctrl.Reconciler
@@ -267,9 +277,18 @@ func (w *world) record(verb string, obj client.Object, failed bool, withObj bool
 func (w *world) beforeWrite() {
 	w.mu.Lock()
 	w.writes++
+	w.total++
 	n := w.writes
+	g := w.opts.Global
+	hit := g != nil && g.K > 0 && w.total == g.K && w.inReconcile
+	if hit {
+		w.globalHit = g.Kind
+	}
 	w.mu.Unlock()
 	if w.faults != nil && w.faults.StopAt > 0 && n == w.faults.StopAt {
+		panic(stopSignal{})
+	}
+	if hit && g.Kind == "stop_before" {
 		panic(stopSignal{})
 	}
 }
@@ -277,15 +296,44 @@ func (w *world) beforeWrite() {
 func (w *world) afterWrite() {
 	w.mu.Lock()
 	n := w.writes
+	hit := w.globalHit == "stop_after"
+	if hit {
+		w.globalHit = ""
+	}
 	w.mu.Unlock()
 	if w.faults != nil && w.faults.StopAfter > 0 && n == w.faults.StopAfter {
 		panic(stopSignal{})
 	}
+	if hit {
+		panic(stopSignal{})
+	}
+}
+
+// lost: the failing call is applied and then reported as failed
+func (w *world) lost() bool {
+	w.mu.Lock()
+	defer w.mu.Unlock()
+	if w.globalNow == "lost" {
+		return true
+	}
+
+	return w.faults != nil && w.faults.Lost
 }
 
 var errInjected = errors.New("injected fault")
 
 func (w *world) shouldFail(verb string, obj client.Object) bool {
+	w.mu.Lock()
+	g := w.globalHit
+	w.globalNow = ""
+	if g == "reject" || g == "lost" {
+		w.globalHit = ""
+		w.globalNow = g
+		w.mu.Unlock()
+
+		return true
+	}
+	w.mu.Unlock()
 	f := w.faults
 	if f == nil {
 		return false
@@ -353,7 +401,7 @@ func (w *world) build(objs []client.Object) {
 			}
 			fail := w.shouldFail("create", obj)
 			w.record("create", obj, fail, true)
-			if fail && !w.faults.Lost {
+			if fail && !w.lost() {
 				return errInjected
 			}
 			err := c.Create(ctx, obj, opts...)
@@ -368,7 +416,7 @@ func (w *world) build(objs []client.Object) {
 			w.beforeWrite()
 			fail := w.shouldFail("delete", obj)
 			w.record("delete", obj, fail, false)
-			if fail && !w.faults.Lost {
+			if fail && !w.lost() {
 				return errInjected
 			}
 			// A real API server does not compare resourceVersions on an unconditional DELETE; the fake
@@ -403,7 +451,7 @@ func (w *world) build(objs []client.Object) {
 			w.beforeWrite()
 			fail := w.shouldFail("update", obj)
 			w.record("update", obj, fail, true)
-			if fail && !w.faults.Lost {
+			if fail && !w.lost() {
 				return errInjected
 			}
 			err := c.Update(ctx, obj, opts...)
@@ -418,7 +466,7 @@ func (w *world) build(objs []client.Object) {
 			w.beforeWrite()
 			fail := w.shouldFail("patch", obj)
 			w.record("patch", obj, fail, true)
-			if fail && !w.faults.Lost {
+			if fail && !w.lost() {
 				return errInjected
 			}
 			err := c.Patch(ctx, obj, patch, opts...)
@@ -433,7 +481,7 @@ func (w *world) build(objs []client.Object) {
 			w.beforeWrite()
 			fail := w.shouldFail("status_update", obj)
 			w.record("status_update", obj, fail, true)
-			if fail && !w.faults.Lost {
+			if fail && !w.lost() {
 				return errInjected
 			}
 			err := c.SubResource(sub).Update(ctx, obj, opts...)
@@ -715,6 +763,14 @@ func (w *world) runOp(op opSpec) (so stepOut) {
 			req := reconcile.Request{NamespacedName: types.NamespacedName{Namespace: op.Ns, Name: op.Name}}
 			var res reconcile.Result
 			var err error
+			w.mu.Lock()
+			w.inReconcile = true
+			w.mu.Unlock()
+			defer func() {
+				w.mu.Lock()
+				w.inReconcile = false
+				w.mu.Unlock()
+			}()
 			switch op.Ctrl {
 			case "eds":
 				res, err = w.eds.Reconcile(ctx, req)
@@ -910,7 +966,13 @@ func (w *world) kubelet(op opSpec) error {
 			cs = append(cs, corev1.ContainerStatus{Name: c.Name, Ready: true, State: corev1.ContainerState{Running: &corev1.ContainerStateRunning{StartedAt: now}}})
 		}
 		p.Status.ContainerStatuses = cs
+		// spec (binding) and status are separate writes on a real API server and on the fake client
+		st := p.Status.DeepCopy()
 		if err := w.raw.Update(ctx, p); err != nil {
+			return err
+		}
+		p.Status = *st
+		if err := w.raw.Status().Update(ctx, p); err != nil {
 			return err
 		}
 	}
@@ -999,6 +1061,9 @@ func (w *world) edit(op opSpec) error {
 		}
 	default:
 		return fmt.Errorf("unknown edit %q", op.Cmd)
+	}
+	if p, ok := obj.(*corev1.Pod); ok && verb == "restart" {
+		return w.raw.Status().Update(ctx, p)
 	}
 
 	return w.raw.Update(ctx, obj)
